@@ -345,7 +345,7 @@ pub fn all(prop: &str, cancelable: bool) -> Vec<Template> {
             p.done()
         }));
     }
-    if want(&["C09"]) {
+    if want(&["C09", "C06"]) {
         // local limits: the first 10240 entries of a scope are recorded with the right parents,
         // the rest is skipped; a 4097th nested scope is not registered and harms nothing
         let mut o = placed();
@@ -357,7 +357,13 @@ pub fn all(prop: &str, cancelable: bool) -> Vec<Template> {
             let outer = p.lenter(0);
             let _ = outer;
             for i in 0..10_300u32 {
-                p.lenter(0);
+                if (10_225..10_250).contains(&i) {
+                    // builder-style properties on the spans around the last free slot
+                    let l = new_local_label();
+                    p.op(0, Op::LEnter { l, np: 1, k0: new_keys(1) });
+                } else {
+                    p.lenter(0);
+                }
                 if i % 997 == 0 {
                     p.ladd_event(0);
                 }
@@ -365,6 +371,8 @@ pub fn all(prop: &str, cancelable: bool) -> Vec<Template> {
             }
             p.ladd_event(0);
             p.ladd_props(0);
+            // decorating the (long recorded, still open) outer span needs no free slot
+            p.op(0, Op::LWithProps { n: 1, k0: new_keys(1) });
             p.pop(0);
             p.lenter(0);
             p.pop(0);
